@@ -21,6 +21,9 @@ META = {
     "C08": {"ref": "DESIGN.md §8 C08",
             "text": "Inductive step instead of history enumeration: the pre-state of the reused parser is symbolic (arbitrary tokens, cursor, current token, position mapping, configuration) constrained only by an invariant that a first harness proves every entry point re-establishes; from every such state the probe's outcome must equal a fresh instance's (verdict, error code, error location, tree). Pool hand-off / Reset are compared field by field with a new parser.",
             "note": "The invariant (depth=0, ctx=nil) is part of the claim; bounded probe length."},
+    "C09": {"ref": "DESIGN.md §8 C09",
+            "text": "Cleanliness per pooled type and field: harnesses are generated from pool.go on every run; the released node's content is symbolic (type-directed fill), the pool model hands the very node back, and the solver discharges structural equality with a freshly constructed node. Aliasing: an engine-side write monitor freezes every cell reachable from values the caller holds; any later write by the library (another parse, a release of another tree, a pooled tokenizer) is the violation; histories are symbolic choices.",
+            "note": "Native confirmation replays the same history and compares deep snapshots of the held values. Pool model: LIFO."},
     "C11": {"ref": "DESIGN.md §8 C11",
             "text": "The moment of cancellation is a symbolic variable: a counting context turns done at poll k (k and the error kind symbolic). On every path the solver discharges: no tree, errors.Is(err, ctx.Err()) through the real wrap chain, at most 2 further polls, the uncancelled run equals the context-free run, and the parser is left without residue (ctx nil, depth restored).",
             "note": "Inputs: fixed nested statements that put every wrapping site on some path, plus short symbolic continuations."},
